@@ -989,6 +989,28 @@ func (env *Env) elabCall(x *ECall) Val {
 			fail("unknown identifier %s", id.Name)
 		}
 		return Val{T: types.Typ[types.Bool], S: pc}
+	case name == "isfunc":
+		// isfunc(x, "F"): the function value x is statically the function (or method expression / method value
+		// thunk of) F - decided from the name of the function constant, no solver involved
+		if len(x.Args) != 2 {
+			fail("isfunc(x, \"F\") needs a function value and a name")
+		}
+		v := env.elab(x.Args[0])
+		nm, ok := x.Args[1].(*EStr)
+		if !ok {
+			fail("isfunc(x, \"F\"): F must be a string literal")
+		}
+		if !strings.HasPrefix(v.S, "fn_") {
+			return Val{T: types.Typ[types.Bool], S: "false"} // not a static function constant
+		}
+		base := v.S
+		for _, suf := range []string{sanitize("$thunk"), sanitize("$bound")} {
+			base = strings.TrimSuffix(base, suf)
+		}
+		if strings.HasSuffix(base, sanitize("."+nm.V)) || strings.HasSuffix(base, sanitize(")."+nm.V)) {
+			return Val{T: types.Typ[types.Bool], S: "true"}
+		}
+		return Val{T: types.Typ[types.Bool], S: "false"}
 	case name == "iszero":
 		// iszero(x): x is the zero value of its type (arrays and structs included)
 		if len(x.Args) != 1 || env.zero == nil {
